@@ -339,7 +339,7 @@ class Gen:
         for _ in range(self.n(r)):
             e = Entity(vmf, {'classname': r.choice(['info_target', 'func_brush', 'logic_relay', 'prop_dynamic'])})
             for _k in range(self.n(r, 5)):
-                key = ''.join(r.choice('abcdefgXYZ_0123') for _ in range(r.randint(1, 10)))
+                key = ''.join(r.choice('abcdefgXYZ_0123' + ('"\\ \tn' if 'special_text' in F else '')) for _ in range(r.randint(1, 10)))
                 if key.casefold() in ('model', 'classname'):
                     continue
                 val = text(r)
